@@ -335,6 +335,21 @@ Section ArrayClosure.
       (map (fun l => (fst (fst l), snd (fst l))) (filter (fun l => snd l) clause))
       dcs.
 
+  (* case analysis on index pairs chosen by the caller: a pair (i, j) is either assumed equal or assumed different;
+     both branches must be conflicts (read-over-write needs to know which) *)
+  Fixpoint arr_split_check (splits : list (nat * nat)) (g : dag) (eqs diseqs : list (nat * nat)) (dcs : list nat) : bool :=
+    arr_conflict_check g eqs diseqs dcs ||
+    match splits with
+    | [] => false
+    | p :: rest => arr_split_check rest g (p :: eqs) diseqs dcs && arr_split_check rest g eqs (p :: diseqs) dcs
+    end.
+
+  Definition arr_clause_split_check (splits : list (nat * nat)) (g : dag) (clause : list (nat * nat * bool)) (dcs : list nat) : bool :=
+    arr_split_check splits g
+      (map (fun l => (fst (fst l), snd (fst l))) (filter (fun l => negb (snd l)) clause))
+      (map (fun l => (fst (fst l), snd (fst l))) (filter (fun l => snd l) clause))
+      dcs.
+
   Section ArrSem.
     Variable D : Type.
     Variable fi : positive -> list D -> D.
@@ -420,6 +435,37 @@ Section ArrayClosure.
     Proof.
       intros clause dcs H Hd Hall. unfold arr_clause_check in H.
       apply (arr_conflict_check_sound _ _ _ H Hd). split.
+      - apply Forall_map. apply Forall_forall. intros [[a b] p] Hin.
+        apply filter_In in Hin. destruct Hin as [Hin Hp]. simpl in *.
+        rewrite Forall_forall in Hall. specialize (Hall _ Hin). unfold lit_false in Hall. simpl in Hall.
+        destruct p; [discriminate | exact Hall].
+      - apply Forall_map. apply Forall_forall. intros [[a b] p] Hin.
+        apply filter_In in Hin. destruct Hin as [Hin Hp]. simpl in *.
+        rewrite Forall_forall in Hall. specialize (Hall _ Hin). unfold lit_false in Hall. simpl in Hall.
+        destruct p; [exact Hall | discriminate].
+    Qed.
+
+    Theorem arr_split_check_sound : forall splits eqs diseqs dcs,
+      arr_split_check splits g eqs diseqs dcs = true ->
+      ForallOrdPairs (fun i j => den i <> den j) dcs ->
+      ~ (Forall (fun e => den (fst e) = den (snd e)) eqs /\ Forall (fun e => den (fst e) <> den (snd e)) diseqs).
+    Proof.
+      induction splits as [|p rest IH]; intros eqs diseqs dcs H Hd; simpl in H.
+      - rewrite orb_false_r in H. exact (arr_conflict_check_sound _ _ _ H Hd).
+      - apply orb_true_iff in H. destruct H as [H|H]; [exact (arr_conflict_check_sound _ _ _ H Hd)|].
+        apply andb_true_iff in H. destruct H as [H1 H2]. intros [He Hne].
+        assert (Hp : den (fst p) <> den (snd p)).
+        { intros E. apply (IH _ _ _ H1 Hd). split; [constructor; assumption | exact Hne]. }
+        apply (IH _ _ _ H2 Hd). split; [exact He | constructor; assumption].
+    Qed.
+
+    Theorem arr_clause_split_check_sound : forall splits clause dcs,
+      arr_clause_split_check splits g clause dcs = true ->
+      ForallOrdPairs (fun i j => den i <> den j) dcs ->
+      ~ Forall (lit_false D den) clause.
+    Proof.
+      intros splits clause dcs H Hd Hall. unfold arr_clause_split_check in H.
+      apply (arr_split_check_sound _ _ _ _ H Hd). split.
       - apply Forall_map. apply Forall_forall. intros [[a b] p] Hin.
         apply filter_In in Hin. destruct Hin as [Hin Hp]. simpl in *.
         rewrite Forall_forall in Hall. specialize (Hall _ Hin). unfold lit_false in Hall. simpl in Hall.
